@@ -73,6 +73,7 @@ bool g_active = false;
 void (*g_yieldHook)(const void *addr, int kind) = nullptr;
 
 // ------------------------------------------------------------------------------------------ clock
+static bool g_readySeen = false; // probabilistic disk faults start once squid serves traffic: an I/O error while loading the index is a (legitimate) start-up FATAL, not a workload
 static uint64_t g_now = 0;        // simulated microseconds since epoch
 static int64_t g_wallOffset = 0;  // system_clock = g_now + offset (clock jumps touch only this)
 static Rng g_tickRng, g_schedRng, g_ioRng;
@@ -212,7 +213,7 @@ static FaultDecision fileOpFault(const char *opclass, const std::string &path, s
             return d;
         }
         if ((f.kind == "eio" || f.kind == "enospc" || f.kind == "short") && (f.opclass.empty() || f.opclass == opclass)) {
-            bool fire = (f.nth >= 0 && f.nth == nthOfClass) || (f.nth < 0 && f.p > 0 && g_diskRng.chance(f.p));
+            bool fire = (f.nth >= 0 && f.nth == nthOfClass) || (f.nth < 0 && f.p > 0 && g_readySeen && g_diskRng.chance(f.p));
             if (!fire) continue;
             if (f.kind == "short") { if (len > 1) { d.action = 3; d.partial = (long)g_diskRng.range(1, len - 1); hist("FAULT\tshort\t%s\t%s\t%ld", opclass, relPath(path).c_str(), d.partial); probe("fault.disk.short"); return d; } continue; }
             d.action = -1; d.err = f.kind == "eio" ? EIO : ENOSPC;
@@ -275,7 +276,7 @@ ssize_t __wrap_pread(int fd, void *buf, size_t n, off_t off)
     auto it = g_files.find(fd);
     if (!g_active || it == g_files.end()) return __real_pread(fd, buf, n, off);
     tick();
-    for (auto &f : g_scn.diskFaults) if (f.kind == "eio" && f.opclass == "read" && f.p > 0 && g_diskRng.chance(f.p)) { hist("FAULT\teio\tread\t%s", relPath(it->second.path).c_str()); probe("fault.disk.eio_read"); errno = EIO; return -1; }
+    for (auto &f : g_scn.diskFaults) if (f.kind == "eio" && f.opclass == "read" && f.p > 0 && g_readySeen && g_diskRng.chance(f.p)) { hist("FAULT\teio\tread\t%s", relPath(it->second.path).c_str()); probe("fault.disk.eio_read"); errno = EIO; return -1; }
     return __real_pread(fd, buf, n, off);
 }
 
@@ -610,7 +611,7 @@ ssize_t __wrap_read(int fd, void *buf, size_t n)
     auto it = g_files.find(fd);
     if (it != g_files.end()) {
         tick();
-        for (auto &f : g_scn.diskFaults) if (f.kind == "eio" && f.opclass == "read" && f.p > 0 && g_diskRng.chance(f.p)) { hist("FAULT\teio\tread\t%s", relPath(it->second.path).c_str()); probe("fault.disk.eio_read"); errno = EIO; return -1; }
+        for (auto &f : g_scn.diskFaults) if (f.kind == "eio" && f.opclass == "read" && f.p > 0 && g_readySeen && g_diskRng.chance(f.p)) { hist("FAULT\teio\tread\t%s", relPath(it->second.path).c_str()); probe("fault.disk.eio_read"); errno = EIO; return -1; }
     }
     return __real_read(fd, buf, n);
 }
@@ -711,7 +712,7 @@ int __wrap_epoll_wait(int epfd, struct epoll_event *evs, int maxev, int timeoutM
         }
     }
     if (!flagSet("ready") && verif_store_rebuilding() == 0) {
-        hist("LIFE\tready"); setFlag("ready");
+        hist("LIFE\tready"); setFlag("ready"); g_readySeen = true;
         if (g_scn.knobU("rock.walk", 0, 0)) verif_rock_walk("ready");
     }
     if (g_scn.mode != "P") {
